@@ -1139,7 +1139,39 @@ def r12(F, rep):
         raise AnalysisBroken("C03-R12: only %d keys that are written from and read into members through keyed helpers (the OPES state expected)" % n)
 
 
+def written_steps(F, rep, rid="C03-R13"):
+    rep.rule(rid, "a step number that is written out is the absolute one: every stream insertion (`os << ...`) in the library "
+                  "whose operand calls a step function calls step_absolute() -- hills, kernels and state blocks are stamped on "
+                  "one time axis, and readers compare those stamps with each other (`h_it <= state_file_step` decides whether "
+                  "a peer's hill is already in the grids it published); a run-relative stamp restarts from zero in every "
+                  "resumed run")
+    n = 0
+    for f in sorted(F.funcs.values(), key=lambda g: g.q):
+        if "/src/" not in f.file or f.body is None:
+            continue
+        seen = set()
+        for c in f.walk():
+            if c["k"] != "CXXOperatorCallExpr" or c.get("op") != "<<" or len(X.call_args(c)) != 2:
+                continue
+            rhs = X.call_args(c)[1]
+            fns = {fn for fn in ("step_absolute", "step_relative") for y in f.walk(rhs)
+                   if y["k"] == "CallExpr" and (y.get("cq") or "") == "colvarmodule::%s" % fn}
+            for fn in sorted(fns):
+                if (fn,) in seen:
+                    continue
+                seen.add((fn,))
+                n += 1
+                rep.add(rid, "%s|%s" % (f.q, fn), f.loc(c), "%s writes %s() to a stream" % (f.q, fn), fn == "step_absolute",
+                        detail="after a restart the stamp is smaller than the stamps written before it: data stamped earlier looks newer "
+                               "than the state that already contains it, and is counted again", func=f.q)
+    if n < 3:
+        raise AnalysisBroken("%s: only %d stream insertions of a step number found" % (rid, n))
+
+
 def run(F, rep, tier):
+    from .rules_c15 import count_lookup
+    count_lookup(F, rep, "C03-R14")
+    written_steps(F, rep)
     r12(F, rep)
     r1(F, rep)
     r2(F, rep)
